@@ -36,6 +36,7 @@ Apply(S, act) ==
     [] act.a = "peer_reset"     -> EnvPeerReset(S, act.c)
     [] act.a = "connect_result" -> EnvConnectResult(S, act.c, act.err)
     [] act.a = "tick"           -> EnvTick(S)
+    [] act.a = "stop"           -> EnvStop(S, act.force, act.wait)
     [] act.a = "send"           -> SendRequest(S, act.k, act.app, act.realm, act.timeout, act.pick)
     [] act.a = "submit"         -> LET hs == {j \in 1..Len(S.held) : S.held[j].a = act.app /\ S.held[j].m.hbh = act.m.hbh /\ S.held[j].m.e2e = act.m.e2e
                                                                           /\ S.held[j].c = act.c0}
